@@ -275,6 +275,26 @@ func init() {
 		ss := c.e().vc.structInfo(c.args[0].T)
 		return c.ret(eq(app(fieldSel(ss, "Status"), c.args[0].S), "1"))
 	}
+	libSpecs[vm+"GetOperator"] = func(c *callCtx) Val {
+		ss := c.e().vc.structInfo(c.args[0].T)
+		return c.ret(app(fieldSel(ss, "OperatorAddress"), c.args[0].S))
+	}
+	libSpecs[vm+"GetTokens"] = func(c *callCtx) Val {
+		ss := c.e().vc.structInfo(c.args[0].T)
+		return c.ret(app(fieldSel(ss, "Tokens"), c.args[0].S))
+	}
+	// GetConsensusPower(r): tokens / r for a bonded validator, 0 otherwise (cosmos-sdk v0.50.9 x/staking/types/validator.go;
+	// the int64 conversion of the quotient panics out of range: obligation)
+	libSpecs[vm+"GetConsensusPower"] = func(c *callCtx) Val {
+		e := c.e()
+		ss := e.vc.structInfo(c.args[0].T)
+		tok := app(fieldSel(ss, "Tokens"), c.args[0].S)
+		bonded := eq(app(fieldSel(ss, "Status"), c.args[0].S), "3")
+		c.obl("panic.lib", "GetConsensusPower_reduction_is_zero", not(eq(c.args[1].S, "0")))
+		q := e.vc.define("cpow", "Int", ite(bonded, app("tdiv", tok, c.args[1].S), "0"))
+		c.obl("panic.lib", "GetConsensusPower_fits_int64", and(app("<=", "(- 9223372036854775808)", q), app("<=", q, "9223372036854775807")))
+		return c.ret(q)
+	}
 	libSpecs[vm+"GetStatus"] = func(c *callCtx) Val {
 		ss := c.e().vc.structInfo(c.args[0].T)
 		return c.ret(app(fieldSel(ss, "Status"), c.args[0].S))
